@@ -57,6 +57,7 @@ type replica struct {
 	c           *Chain
 	cfg         nodeCfg
 	firstHeight int64 // oldest height the traffic asks about (committed after the set-up)
+	restarts    int
 }
 
 // ---------------------------------------------------------------- world
